@@ -217,6 +217,10 @@ def _class_digest(cls, h, depth):
 
 
 # ---------------------------------------------------------------------------
+class _Stop(Exception):
+    pass
+
+
 def job_coarse(groups, max_bound, label, budget=None, shard=None):
     """groups: list of tuples of (statement index, document index).  The preemption bound of a group is the
     largest b <= max_bound with (total scheduling points)**b <= budget (schedules grow like points**b)."""
@@ -261,13 +265,19 @@ def job_coarse(groups, max_bound, label, budget=None, shard=None):
                           'texts': [POOL[i] for i, d in g]},
                          'schedule %r: results %r; alone %r' % (x.choices, x.res, base),
                          size=len(x.choices))
+                if stats['bad'] >= 25:
+                    raise _Stop()        # the verdict for this group is decided; every further violating schedule is run twice
             elif stats['n'] % 20 == 1 and shared_digest() != d0:
                 # (the digest costs 7 ms: sampled every 20th schedule here, and once more after the last one)
                 res.fail('shared state changed by evaluation statements=%s' % '|'.join(sorted(set(str(i) for i, d in g))),
                          {'kind': 'coarse', 'threads': [list(t) for t in g], 'choices': list(x.choices),
                           'texts': [POOL[i] for i, d in g]}, 'identity digest of the shared context/statements/engine/modules changed',
                          size=len(x.choices))
-        n, capped = sched.explore(bodies, bound, check, max_schedules=400000, shard=shard)
+        try:
+            n, capped = sched.explore(bodies, bound, check, max_schedules=400000, shard=shard)
+        except _Stop:
+            n, capped = stats['n'], False
+            res.caps.append('coarse group %r stopped after 25 violating schedules (%d explored)' % (g, n))
         if shared_digest() != d0:
             res.fail('shared state changed by evaluation statements=%s' % '|'.join(sorted(set(str(i) for i, d in g))),
                      {'kind': 'coarse', 'threads': [list(t) for t in g], 'choices': [],
